@@ -44,6 +44,12 @@ int main(int argc, char **argv)
 				bad |= one<unsigned>((unsigned)v, true);
 			}
 		bad |= one<int>(INT_MIN, true) | one<int>(INT_MAX, true) | one<int>(0, true) | one<unsigned>(UINT_MAX, true);
+		// the last 40 values at each end of both domains (overflow guards live there) and around max/10
+		for (long long d = 0; d < 40 && !bad; ++d)
+		{
+			bad |= one<int>((int)(INT_MAX - d), true) | one<int>((int)(INT_MIN + d), true) | one<unsigned>((unsigned)(UINT_MAX - d), true);
+			bad |= one<int>((int)(INT_MAX / 10 - 20 + d), true) | one<int>((int)(INT_MIN / 10 - 20 + d), true) | one<unsigned>((unsigned)(UINT_MAX / 10 - 20 + d), true);
+		}
 		for (long long v = INT_MIN; v <= INT_MAX && !bad; v += 9973) bad |= one<int>((int)v, true);
 		for (unsigned long long v = 0; v <= UINT_MAX && !bad; v += 9973) bad |= one<unsigned>((unsigned)v, true);
 		printf("{\"search_done\":true,\"mismatch\":%s}\n", bad ? "true" : "false");
